@@ -126,6 +126,10 @@ structure Variant where
   /-- before 4bee69d: equal ids were taken for equal types even below different enclosing types
   (their back-references then mean different things) -/
   equalIdsIgnoreContext : Bool := false
+  /-- PROPOSED, not in the code (notes/C09-fixes/06; the only flag that is not a historical rule): a
+  resolved `Cycle` continues below the enclosing types of its target instead of keeping the stack of
+  the place where the back-reference stood (R6). Used by the drivers to name the mechanism of R6. -/
+  cycleDropsInnerStack : Bool := false
   deriving DecidableEq, Repr, Inhabited
 
 /-- The two stacks of enclosing boundary types (each top first): `l` for the left (self) type, `r`
@@ -155,17 +159,25 @@ def restoreOnFail (vr : Variant) (snapshot : Asm) : Res → Res
 
 abbrev Rec := Asm → Stk → Nat → Nat → Res
 
+/-- the stacks with which a resolved `Cycle d` goes on: unchanged in the code as it is; with
+`cycleDropsInnerStack` the `d` entries down to and including the target are dropped from the stack it
+was resolved on (the target pushes itself again) -/
+def Stk.resolved (vr : Variant) (onRight : Bool) (st : Stk) (d : Nat) : Stk :=
+  if vr.cycleDropsInnerStack then
+    (if onRight then { st with r := st.r.drop d } else { st with l := st.l.drop d })
+  else st
+
 /-- `(Type::Cycle(depth), _)`: resolve on the stack, else `true` ("coinductive reasoning"). -/
 def cycleLeft (vr : Variant) (rec : Rec) (asm : Asm) (st : Stk) (d b : Nat) : Res :=
   match resolveCycle (if vr.leftCycleOnRightStack then st.r else st.l) d with
   | none => some (true, asm)
-  | some sid => rec asm st sid b
+  | some sid => rec asm (st.resolved vr vr.leftCycleOnRightStack d) sid b
 
 /-- `(_, Type::Cycle(depth))`. -/
-def cycleRight (rec : Rec) (asm : Asm) (st : Stk) (a d : Nat) : Res :=
+def cycleRight (vr : Variant) (rec : Rec) (asm : Asm) (st : Stk) (a d : Nat) : Res :=
   match resolveCycle st.r d with
   | none => some (true, asm)
-  | some sid => rec asm st a sid
+  | some sid => rec asm (st.resolved vr true d) a sid
 
 /-- `(Type::Union(variants), _)` with a non-empty left union. -/
 def unionLeft (vr : Variant) (mode : Mode) (rec : Rec) (asm : Asm) (st : Stk) (a b : Nat)
@@ -320,7 +332,7 @@ def relStep (vr : Variant) (T : Table) (mode : Mode) (rec : Rec)
     -- (before fd75268: same depth ⇒ `true`) the pair falls to the arm `(Type::Cycle(depth), _)`
     if vr.cycleSameDepthShortcut = true ∧ d1 = d2 then some (true, asm) else cycleLeft vr rec asm st d1 b
   | .cycle d, _ => cycleLeft vr rec asm st d b
-  | _, .cycle d => cycleRight rec asm st a d
+  | _, .cycle d => cycleRight vr rec asm st a d
   | .union vs, _ => unionLeft vr mode rec asm st a b vs
   | _, .union vs => unionRight vr rec asm st a b vs
   | .tuple i1, .tuple i2 => tupleTuple vr T mode rec asm st i1 i2
